@@ -371,6 +371,12 @@ def toast_pixel_for_point(depth, lat, lon, coordsys=ToastCoordinateSystem.ASTRON
     # that is closest to the input position.
 
     lons, lats = toast_tile_get_coords(tile)
+
+    # The tile longitudes come in a mixture of 2pi-equivalent representations,
+    # so bring them all to within pi of the target longitude before taking
+    # differences or fitting.
+    lons = lon + (lons - lon + np.pi) % TWOPI - np.pi
+
     dist2 = (lons - lon) ** 2 + (lats - lat) ** 2
     min_y, min_x = np.unravel_index(np.argmin(dist2), (256, 256))
 
